@@ -1,12 +1,15 @@
 package main
 
 import (
+	"encoding/json"
 	"flag"
 	"fmt"
 	"os"
+	"path/filepath"
 	"sort"
 	"strconv"
 	"strings"
+	"time"
 )
 
 func main() {
@@ -19,6 +22,8 @@ func main() {
 		cmdExplore(os.Args[2:])
 	case "check":
 		cmdCheck(os.Args[2:])
+	case "replay":
+		cmdReplay(os.Args[2:])
 	default:
 		fmt.Fprintln(os.Stderr, "unknown command", os.Args[1])
 		os.Exit(2)
@@ -124,3 +129,73 @@ type multiFlag []string
 func (m *multiFlag) String() string     { return strings.Join(*m, ",") }
 func (m *multiFlag) Set(s string) error { *m = append(*m, s); return nil }
 
+
+// cmdReplay re-runs a recorded counterexample natively against /repo's
+// current tree.
+func cmdReplay(args []string) {
+	fs := flag.NewFlagSet("replay", flag.ExitOnError)
+	file := fs.String("file", "", "replay json")
+	vdir := fs.String("verif", "/verif", "verification directory")
+	fs.Parse(args)
+	b, err := os.ReadFile(*file)
+	if err != nil {
+		fmt.Println("cannot read replay:", err)
+		os.Exit(2)
+	}
+	var rp struct {
+		Property   string         `json:"property"`
+		Harness    string         `json:"harness"`
+		Params     map[string]int `json:"params"`
+		Draws      []DrawRec      `json:"draws"`
+		Obligation string         `json:"obligation"`
+	}
+	if err := json.Unmarshal(b, &rp); err != nil {
+		fmt.Println("bad replay file:", err)
+		os.Exit(2)
+	}
+	hdir := filepath.Join(*vdir, "harness")
+	if sum, err := os.ReadFile("/repo/go.sum"); err == nil {
+		os.WriteFile(filepath.Join(hdir, "go.sum"), sum, 0644)
+	}
+	work := filepath.Join(*vdir, ".work")
+	os.MkdirAll(work, 0755)
+	bin := filepath.Join(work, fmt.Sprintf("vreplay.%d", os.Getpid()))
+	defer os.Remove(bin)
+	overlayJSON := ""
+	var cfgAll map[string]PropCfg
+	if cb, err := os.ReadFile(filepath.Join(*vdir, "checks.json")); err == nil {
+		json.Unmarshal(cb, &cfgAll)
+		if cfg, ok := cfgAll[rp.Property]; ok && len(cfg.Overlay) > 0 {
+			ov := map[string]string{}
+			for virt, real := range cfg.Overlay {
+				ov[virt] = filepath.Join(*vdir, real)
+			}
+			ob, _ := json.Marshal(map[string]map[string]string{"Replace": ov})
+			overlayJSON = filepath.Join(work, fmt.Sprintf("overlay.%d.json", os.Getpid()))
+			os.WriteFile(overlayJSON, ob, 0644)
+			defer os.Remove(overlayJSON)
+		}
+	}
+	if err := buildReplay(hdir, bin, overlayJSON); err != nil {
+		fmt.Println(err)
+		os.Exit(2)
+	}
+	res, err := runReplay(bin, []replayJob{{ID: 1, Harness: rp.Harness, Params: rp.Params, Draws: rp.Draws}}, 5*time.Minute)
+	if err != nil {
+		fmt.Println(err)
+		os.Exit(2)
+	}
+	r := res[1]
+	fmt.Printf("harness %s with%s\nnative outcome: %s %s %s\n", rp.Harness, drawStr(rp.Draws), r.Outcome, r.FailID, r.Msg)
+	reproduced := false
+	if strings.HasPrefix(rp.Obligation, "panic: ") {
+		reproduced = r.Outcome == "panic" || r.Outcome == "fatal"
+	} else {
+		reproduced = r.Outcome == "assert" && r.FailID == rp.Obligation
+	}
+	if reproduced {
+		fmt.Printf("VIOLATION property=%s replay=%s\n", rp.Property, *file)
+		os.Exit(1)
+	}
+	fmt.Println("the recorded violation does not occur on the current tree")
+}
